@@ -1,9 +1,225 @@
+import RsMatterVerif.Model.Case
+import Driver.C19
 import Driver.Util
-/-! Driver for C01: not built yet. -/
+/-! Driver for C01: replays two-node CASE handshakes on the symbolic model (`Model/Case`) and
+evaluates the property's clauses on the sessions the REAL nodes ended up with (oracle). -/
 namespace Driver.C01
+open Cert Case
 
-def run : IO UInt32 := do
-  IO.eprintln "C01: driver not built yet"
-  return 2
+structure St where
+  ctl : Option Fabric := none
+  dev : Option Fabric := none
+  cacheI : List ResRec := []
+  cacheR : List ResRec := []
+  /-- fresh-value counter (ephemeral keys, randoms, session / resumption ids) -/
+  n : Nat := 0
+deriving Inhabited
+
+def mkFabric (idx : Nat) (root noc : Cert) (icac : Option Cert) (opKey : Option Nat) : Fabric :=
+  { idx := idx, fabricId := (fabricIdOf noc.subject).getD 0, root := root, ipk := .atom 77,
+    nodeId := (nodeIdOf noc.subject).getD 0, noc := noc, icac := icac, opKey := opKey.getD noc.pubKey }
+
+def junk (k : Nat) : Term := .atom (900000 + k)
+
+/-- a bit flip inside top-level field `tag` of message `name`: the field becomes a value nobody
+computed; a field that is not present is left alone (the harness finds nothing to flip) -/
+def mutField (name : String) (tag : Nat) (m : Msg) : Msg :=
+  match name, m with
+  | "s1", .sigma1 r s d e res =>
+    match tag with
+    | 1 => .sigma1 (junk 1) s d e res
+    | 2 => .sigma1 r (junk 2) d e res
+    | 3 => .sigma1 r s (junk 3) e res
+    | 4 => .sigma1 r s d (junk 4) res
+    | 6 => .sigma1 r s d e (res.map fun p => (junk 6, p.2))
+    | 7 => .sigma1 r s d e (res.map fun p => (p.1, junk 7))
+    | _ => m
+  | "s2", .sigma2 r s e c =>
+    match tag with
+    | 1 => .sigma2 (junk 1) s e c
+    | 2 => .sigma2 r (junk 2) e c
+    | 3 => .sigma2 r s (junk 3) c
+    | 4 => .sigma2 r s e (junk 4)
+    | _ => m
+  | "s3", .sigma3 _ => if tag = 1 then .sigma3 (junk 1) else m
+  | "r2", .sigma2Resume r mc s =>
+    match tag with
+    | 1 => .sigma2Resume (junk 1) mc s
+    | 2 => .sigma2Resume r (junk 2) s
+    | 3 => .sigma2Resume r mc (junk 3)
+    | _ => m
+  | _, _ => m
+
+structure Outcome where
+  ctl : Option Session := none
+  dev : Option Session := none
+deriving Inhabited
+
+def fmtSess : Option Session → String
+  | none => "none"
+  | some s =>
+    let cats := if s.cats.isEmpty then "-" else ".".intercalate (s.cats.map toString)
+    s!"sess(fab={s.fabIdx},peer={s.peerNode},cats={cats},local={s.localNode})"
+
+def fmtOutcome (o : Outcome) : String :=
+  let keys := match o.ctl, o.dev with
+    | some a, some b => if a.i2r = b.i2r ∧ a.r2i = b.r2i then "agree" else "differ"
+    | _, _ => "na"
+  s!"ctl={fmtSess o.ctl} dev={fmtSess o.dev} keys={keys}"
+
+def upsert (cache : List ResRec) (r : ResRec) : List ResRec :=
+  (cache.filter fun x => !(x.fabIdx == r.fabIdx && x.peerNode == r.peerNode)) ++ [r]
+
+/-- one handshake between the two nodes; `mut` = (message, field) hit by a bit flip on its first
+transmission -/
+def runHs (t : Time) (st : St) (cf df : Fabric) (mutn : Option (String × Nat)) : Outcome × St :=
+  let n := st.n
+  let st := { st with n := n + 10 }
+  let app (name : String) (m : Msg) : Msg :=
+    match mutn with
+    | some (nm, tag) => if nm = name then mutField name tag m else m
+    | none => m
+  let c := initSigma1 cf st.cacheI df.nodeId (n + 1) (.atom (10000 + n)) (.atom (20000 + n))
+  let m1 := app "s1" c.s1
+  match respResume [df] st.cacheR m1 (.atom (30000 + n)) (.atom (40000 + n)) with
+  | some ctxR =>
+    let m2 := app "r2" ctxR.s2r
+    match initSigma2Resume c m2 with
+    | some (sI, rI) =>
+      -- the initiator sends the success status report
+      match respResumeFinish ctxR (.status true) with
+      | some (sR, rR) =>
+        ({ ctl := some sI, dev := some sR },
+         { st with cacheI := upsert st.cacheI rI, cacheR := upsert st.cacheR rR })
+      | none => ({ ctl := some sI }, { st with cacheI := upsert st.cacheI rI })
+    | none => ({}, st)
+  | none =>
+    match respSigma1 [df] m1 (n + 2) (.atom (50000 + n)) (.atom (30000 + n)) (.atom (40000 + n)) with
+    | .refused => ({}, st)
+    | .sent ctx =>
+      let m2 := app "s2" ctx.s2
+      match initSigma2 t c m2 with
+      | none => ({}, st)
+      | some c3 =>
+        let m3 := app "s3" c3.s3
+        match respSigma3 t ctx m3 with
+        | none => ({}, st)
+        | some (sR, rR) =>
+          match initFinish c3 (.status true) with
+          | some (sI, rI) =>
+            ({ ctl := some sI, dev := some sR },
+             { st with cacheI := upsert st.cacheI rI, cacheR := upsert st.cacheR rR })
+          | none => ({ dev := some sR }, { st with cacheR := upsert st.cacheR rR })
+
+/-! ## oracle: the clauses of the property on what the implementation reports -/
+
+/-- parse `sess(fab=1,peer=200,cats=1.2,local=100)` -/
+def parseSess (s : String) : Option (Nat × Nat × List Nat × Nat) :=
+  if ¬ s.startsWith "sess(" then none else
+  let inner := ((s.drop 5).toString.dropEnd 1).toString
+  let kvs := inner.splitOn ","
+  let get (k : String) : Option String :=
+    kvs.findSome? fun e => if e.startsWith (k ++ "=") then some (e.drop (k.length + 1)).toString else none
+  match (get "fab").bind String.toNat?, (get "peer").bind String.toNat?, get "cats",
+        (get "local").bind String.toNat? with
+  | some f, some p, some c, some l =>
+    some (f, p, if c = "-" then [] else (c.splitOn ".").filterMap String.toNat?, l)
+  | _, _, _, _ => none
+
+def field (out key : String) : String :=
+  ((words out).findSome? fun w =>
+    if w.startsWith (key ++ "=") then some (w.drop (key.length + 1)).toString else none).getD ""
+
+/-- a live session on `me` (holding fabric `mine`) must be with a peer whose chain is valid for
+that fabric, and be bound to that chain's node id and CATs -/
+def checkSide (side : String) (t : Time) (mine peer : Fabric) (s : String) : Option String :=
+  if s = "none" then none
+  else if s.contains '+' then some s!"{side}: more than one new session: {s}"
+  else
+    match parseSess s with
+    | none => some s!"{side}: unparsable session {s}"
+    | some (fab, p, cats, loc) =>
+      if peer.opKey ≠ peer.noc.pubKey then
+        some s!"{side} holds a session with a peer that does not hold the private key of its NOC: {s}"
+      else if ¬ decide (CaseValid t mine.view peer.noc peer.icac) then
+        some s!"{side} holds a session although the peer's chain is not valid for the addressed fabric: {s}"
+      else if fab ≠ mine.idx then some s!"{side}: session on another fabric index: {s}"
+      else if some p ≠ nodeIdOf peer.noc.subject then
+        some s!"{side}: session bound to a node id that is not the certificate's: {s}"
+      else if cats ≠ catsOf peer.noc.subject then
+        some s!"{side}: session bound to other CATs than the certificate's: {s}"
+      else if loc ≠ mine.nodeId then some s!"{side}: wrong local node id: {s}"
+      else none
+
+def oracle (t : Time) (cf df : Fabric) (out : String) : Option String :=
+  if out.startsWith "panic" then some "panic in the code under test" else
+  let c := field out "ctl"
+  let d := field out "dev"
+  match checkSide "controller" t cf df c with
+  | some w => some w
+  | none =>
+    match checkSide "device" t df cf d with
+    | some w => some w
+    | none =>
+      -- the controller only ever wanted to talk to the device's node id
+      if c ≠ "none" ∧ d ≠ "none" ∧ field out "keys" ≠ "agree" then
+        some s!"both ends hold a session but not the same directional keys: {out}"
+      else none
+
+def parseMut (s : String) : Option (String × String × Nat) :=
+  match s.splitOn ":" with
+  | m :: k :: rest => some (m, k, ((rest.head?).bind String.toNat?).getD 0)
+  | _ => none
+
+def step (st : St) (line : String) : St × String :=
+  let (op, out) := splitArrow line
+  let toks := words op
+  match toks with
+  | "case" :: _ => ({}, "case")
+  | kind :: rest =>
+    if out.startsWith "fabric:" ∨ out = "nostate" ∨ out = "bad" then (st, "ok") else
+    let st : St :=
+      if kind = "hs" then
+        let rec? (k : String) : Option Cert := (Driver.C19.kv k rest).bind Driver.C19.parseRec
+        let orec (k : String) : Option Cert :=
+          match Driver.C19.kv k rest with
+          | some "-" => none
+          | some v => Driver.C19.parseRec v
+          | none => none
+        match rec? "root", rec? "cnoc", rec? "dnoc" with
+        | some root, some cnoc, some dnoc =>
+          let droot := (rec? "droot").getD root
+          let key (k : String) : Option Nat := (Driver.C19.kv k rest).bind String.toNat?
+          { ctl := some (mkFabric 1 root cnoc (orec "cicac") (key "ckey")),
+            dev := some (mkFabric 1 droot dnoc (orec "dicac") (key "dkey")), n := 0 }
+        | _, _, _ => {}
+      else st
+    match st.ctl, st.dev, Driver.C19.parseTime (field out "t") with
+    | some cf, some df, some t =>
+      let mu := (Driver.C19.kv "mut" rest).bind parseMut
+      let sched := Driver.C19.kv "sched" rest
+      let ora := oracle t cf df out
+      -- model prediction: unmutated runs and single-field bit flips on a perfect network
+      let predictable : Bool := sched.isNone && (match mu with | none => true | some (_, k, _) => k == "f")
+      let (o, st') := runHs t st cf df (mu.bind fun (m, k, a) => if k = "f" then some (m, a) else none)
+      -- after a run the model cannot follow (other mutations, schedules) the caches are taken
+      -- from what the implementation did: both ends live => both caches updated as in the model;
+      -- otherwise resumption state is unknown and the model restarts from empty caches
+      let stNext : St :=
+        if predictable then st'
+        else if field out "ctl" ≠ "none" ∧ field out "dev" ≠ "none" then st'
+        else { st with cacheI := [], cacheR := [], n := st.n + 10 }
+      match ora with
+      | some w => (stNext, s!"ORA {w}")
+      | none =>
+        if predictable then
+          let want := fmtOutcome o
+          let got := s!"ctl={field out "ctl"} dev={field out "dev"} keys={field out "keys"}"
+          if want = got then (stNext, "ok") else (stNext, s!"DIS {want}")
+        else (stNext, "ok")
+    | _, _, _ => (st, "BAD setup")
+  | _ => (st, "BAD op")
+
+def run : IO UInt32 := Driver.runLoop ({} : St) step
 
 end Driver.C01
